@@ -102,6 +102,10 @@ class CallMixin:  # pylint:disable=too-many-public-methods
             return self.call_ext(func.name, args, kwargs, node, frame)
         if isinstance(func, BoundExt):
             return self.call_bound(func, args, kwargs, node, frame)
+        if isinstance(func, Obj) and func.cls == "functools.partial":
+            return self.call(func.fields["func"], [*func.fields["args"], *args], {**func.fields["kwargs"], **kwargs}, node, frame)
+        if isinstance(func, Obj) and func.cls == "functools.identity_decorator":
+            return args[0]
         if isinstance(func, Obj) and func.cls == "functools.lru_cache_decorator":
             return Obj("functools.lru_cache_wrapper", {"fn": args[0], "cache": {}, "maxsize": func.fields.get("maxsize"), "order": []})
         if isinstance(func, Obj) and func.cls == "functools.lru_cache_wrapper":
@@ -292,6 +296,8 @@ class CallMixin:  # pylint:disable=too-many-public-methods
                 if m is not None:
                     if any((dotted(d) or "") == "staticmethod" for d in m.node.decorator_list):
                         return FuncVal(fn=m, module=m.module)
+                    if any((dotted(d) or "") == "classmethod" for d in m.node.decorator_list):
+                        return FuncVal(fn=m, self_obj=ClassVal(v.cls), module=m.module)
                     if any((dotted(d) or "") == "property" for d in m.node.decorator_list):
                         return self.run_function(FuncVal(fn=m, self_obj=v, module=m.module), [], {}, node)
                     return FuncVal(fn=m, self_obj=v, module=m.module)
@@ -364,6 +370,8 @@ class CallMixin:  # pylint:disable=too-many-public-methods
                     return cls.name
                 m = self.model.find_method(cls, attr)
                 if m is not None:
+                    if any((dotted(d) or "") == "classmethod" for d in m.node.decorator_list):
+                        return FuncVal(fn=m, self_obj=v, module=m.module)
                     return FuncVal(fn=m, module=m.module)
                 ca = self.model.class_attr(cls, attr)
                 if ca is not None:
@@ -440,6 +448,18 @@ class CallMixin:  # pylint:disable=too-many-public-methods
                     acc = strt_concat(acc, self.to_str(it, node, frame) if not isinstance(it, (str, StrT)) else it)
                 return acc
             if a == "format":
+                if all(isinstance(x, (str, int, float, bool)) or x is None for x in [*args, *kwargs.values()]):
+                    try:
+                        return r.format(*args, **kwargs)
+                    except (IndexError, KeyError, ValueError) as err:
+                        self.raise_(type(err).__name__, str(err))
+                conv = [self.to_str(x, node, frame) for x in args]
+                kconv = {k: self.to_str(v, node, frame) for k, v in kwargs.items()}
+                if all(isinstance(x, str) for x in [*conv, *kconv.values()]) and "!r" not in r and ":" not in r:
+                    try:
+                        return r.format(*conv, **kconv)
+                    except (IndexError, KeyError, ValueError) as err:
+                        self.raise_(type(err).__name__, str(err))
                 return StrT((r, Opaque("format-args")))
             if a in ("startswith", "endswith", "replace") and any(isinstance(x, (StrT, Opaque)) for x in args):
                 return Opaque(f"str.{a}")
@@ -846,6 +866,10 @@ class CallMixin:  # pylint:disable=too-many-public-methods
             if isinstance(v, Obj):
                 return Obj(v.cls, dict(v.fields))
             return v
+        if name == "functools.partial":
+            return Obj("functools.partial", {"func": args[0], "args": list(args[1:]), "kwargs": dict(kwargs)})
+        if name in ("functools.wraps",):
+            return Obj("functools.identity_decorator", {})
         if name in ("functools.lru_cache", "functools.cache"):
             if name == "functools.cache":
                 return Obj("functools.lru_cache_wrapper", {"fn": args[0], "cache": {}, "maxsize": None, "order": []})
